@@ -4,7 +4,7 @@ CONSTANT IH <- SymIH
 CONSTANT NK = 5
 CONSTANT NH = 5
 CONSTANT Spread = 1
-CONSTANT MaxOps = 6
+CONSTANT MaxOps = 4
 CONSTANT MaxBatch = 3
 VIEW View
 CONSTRAINT Bound
